@@ -334,9 +334,15 @@ class Unit:
                 for cl in c.spec.clauses():
                     if cl['section'] == 'ensures' and cl['first'] not in keep:
                         drop_lines.update(range(cl['first'], cl['last'] + 1))
+            if mode != 'verify':
+                # clauses marked `@verify-only` are obligations of the function's own unit that no caller relies on;
+                # they may name items that only that unit extracts, so callers' units see the contract without them
+                for cl in c.spec.clauses():
+                    if '@verify-only' in cl['text'] or any('@verify-only' in t_ for t_, n_ in c.spec.lines if cl['first'] <= n_ <= cl['last']):
+                        drop_lines.update(range(cl['first'], cl['last'] + 1))
             for t, no in c.spec.lines:
                 if no in drop_lines:
-                    em.emit('// (clause isolated out)\n', ('gen', None, 0))
+                    em.emit('// (clause not emitted in this unit)\n', ('gen', None, 0))
                     continue
                 code = re.sub(r'//.*$', '', t).strip()
                 if not done and re.match(r'decreases\b', code):
